@@ -80,6 +80,8 @@ struct Packet {
     recipient_secret: Vec<u8>,
     has_key: bool,
     from_bsv: bool,
+    /// a parsed ciphertext object somebody still holds, with the wire bytes it was parsed from
+    held: Option<(Vec<u8>, ECIESCiphertext)>,
     /// region of every flip applied so far
     flips: Vec<&'static str>,
     deliveries: u32,
@@ -107,7 +109,7 @@ impl Scenario for EciesNet {
             real: &["bsv::ECIES::{encrypt, encrypt_with_ephemeral_private_key, decrypt, derive_cipher_keys}", "bsv::ECIESCiphertext::{to_bytes, from_bytes, extract_public_key}", "bsv::PrivateKey::{encrypt_message, decrypt_message, from_random via the entropy hook}", "bsv::PublicKey::encrypt_message"],
             stub: &["RefPeer: BIE1 written against k256 point arithmetic, sha2, a hand-written AES-128-CBC/PKCS7 over the aes block cipher and textbook HMAC-SHA256", "entropy source = script installed through the cfg(bsv_verif) hook", "channel = in-memory byte buffer with a fault plan"],
             assumptions: &["a flip inside the four magic bytes (which the statement does not list and the parser ignores) must yield an error or exactly the original message", "truncation/extension are not in this fault mix: the statement prescribes nothing for them and the parsing side is C09's"],
-            required_probes: &["send_bsv_ephemeral", "send_ref", "flip_body", "flip_pubkey", "flip_mac", "flip_magic", "deliver_wrong_recipient", "deliver_wrong_sender", "replayed", "rejection_resample", "bsv_to_ref", "ref_to_bsv", "bsv_to_bsv", "wire_equals_peer"],
+            required_probes: &["send_bsv_ephemeral", "send_ref", "flip_body", "flip_pubkey", "flip_mac", "flip_magic", "deliver_wrong_recipient", "deliver_wrong_sender", "replayed", "rejection_resample", "bsv_to_ref", "ref_to_bsv", "bsv_to_bsv", "wire_equals_peer", "ciphertext_object_reused"],
             quick_runs: 20000,
             thorough_runs: 1500000,
             rlimit_as: 4 << 30,
@@ -136,7 +138,18 @@ impl Scenario for EciesNet {
                 r_idx = s_idx;
             }
             events.push(json!({"op": "send", "pkt": p, "sender": sender, "mode": mode, "skey": keys[s_idx as usize], "rkey": keys[r_idx as usize], "r_compressed": rng.chance(2, 3),
-                "msg": hx(&rng.bytes(mlen)), "entropy": hx(&script), "rejected": rejected, "ekind": ekind}));
+                "msg": hx(&{
+                    let mut m = rng.bytes(mlen);
+                    // plaintexts whose tail looks like PKCS#7 padding (last byte 1..16, possibly a run of it)
+                    if mlen > 0 && rng.chance(1, 3) {
+                        let pad = rng.range(1, 16) as u8;
+                        let run = (rng.range(1, 17) as usize).min(mlen);
+                        for k in 0..run {
+                            m[mlen - 1 - k] = pad;
+                        }
+                    }
+                    m
+                }), "entropy": hx(&script), "rejected": rejected, "ekind": ekind}));
             let n_ops = rng.range(1, 4);
             for _ in 0..n_ops {
                 match rng.weighted(&[30, 55, 15]) {
@@ -147,12 +160,12 @@ impl Scenario for EciesNet {
                     }
                     1 => {
                         let key = *rng.pick(&["right", "right", "right", "wrong_recipient", "wrong_sender"]);
-                        events.push(json!({"op": "deliver", "pkt": p, "recipient": *rng.pick(&["bsv", "bsv", "ref"]), "keying": *rng.pick(&["known", "from_ct"]), "key": key, "other": gen_key(rng), "via_decrypt_message": rng.chance(1, 4)}));
+                        events.push(json!({"op": "deliver", "pkt": p, "recipient": *rng.pick(&["bsv", "bsv", "ref"]), "keying": *rng.pick(&["known", "from_ct"]), "key": key, "other": gen_key(rng), "via_decrypt_message": rng.chance(1, 4), "reuse_object": rng.chance(1, 2)}));
                     }
-                    _ => events.push(json!({"op": "deliver", "pkt": p, "recipient": "bsv", "keying": "known", "key": "right", "other": gen_key(rng), "via_decrypt_message": false})),
+                    _ => events.push(json!({"op": "deliver", "pkt": p, "recipient": "bsv", "keying": "known", "key": "right", "other": gen_key(rng), "via_decrypt_message": false, "reuse_object": rng.chance(1, 2)})),
                 }
             }
-            events.push(json!({"op": "deliver", "pkt": p, "recipient": *rng.pick(&["bsv", "ref"]), "keying": "known", "key": "right", "other": gen_key(rng), "via_decrypt_message": false}));
+            events.push(json!({"op": "deliver", "pkt": p, "recipient": *rng.pick(&["bsv", "ref"]), "keying": "known", "key": *rng.pick(&["right", "right", "wrong_sender", "wrong_recipient"]), "other": gen_key(rng), "via_decrypt_message": false, "reuse_object": rng.chance(1, 2)}));
         }
         Plan { config: json!({"packets": n_send}), events }
     }
@@ -273,10 +286,11 @@ impl Scenario for EciesNet {
                                 }
                             }
                         }
-                        pkts[p] = Some(Packet { wire, msg, sender_secret, recipient_secret: eff_rsecret, has_key, from_bsv: true, flips: vec![], deliveries: 0 });
+                        let held = Some((wire.clone(), ct));
+                        pkts[p] = Some(Packet { wire, msg, sender_secret, recipient_secret: eff_rsecret, has_key, from_bsv: true, held, flips: vec![], deliveries: 0 });
                         continue;
                     }
-                    pkts[p] = Some(Packet { wire, msg, sender_secret, recipient_secret: rkey, has_key, from_bsv: false, flips: vec![], deliveries: 0 });
+                    pkts[p] = Some(Packet { wire, msg, sender_secret, recipient_secret: rkey, has_key, from_bsv: false, held: None, flips: vec![], deliveries: 0 });
                 }
                 "flip" => {
                     let pk = match pkts.get_mut(p).and_then(|x| x.as_mut()) {
@@ -371,18 +385,43 @@ impl Scenario for EciesNet {
                         let wire = pk.wire.clone();
                         let has_key = pk.has_key;
                         let via_dm = jbool(ev, "via_decrypt_message");
-                        let r = guard(|| -> Result<Vec<u8>, String> {
-                            let ct = ECIESCiphertext::from_bytes(&wire, has_key).map_err(|e| e.to_string())?;
-                            let rk = PrivateKey::from_bytes(&rsecret).map_err(|e| e.to_string())?;
-                            let sp = if keying == "known" { PublicKey::from_bytes(&sender_pub_known).map_err(|e| e.to_string())? } else { ct.extract_public_key().map_err(|e| e.to_string())? };
-                            // serialise/parse once more: must be stable
-                            let again = ECIESCiphertext::from_bytes(&ct.to_bytes(), has_key).map_err(|e| e.to_string())?;
-                            if via_dm {
-                                rk.decrypt_message(&again, &sp).map_err(|e| e.to_string())
-                            } else {
-                                ECIES::decrypt(&again, &rk, &sp).map_err(|e| e.to_string())
+                        // the same parsed object may be opened several times (by the sender, by a recipient who keeps it)
+                        let use_held = jbool(ev, "reuse_object") && pk.held.as_ref().map(|h| h.0 == wire).unwrap_or(false);
+                        let mut fresh: Option<ECIESCiphertext> = None;
+                        let mut early: Option<Result<Vec<u8>, String>> = None;
+                        if use_held {
+                            ctx.probe("ciphertext_object_reused");
+                            ctx.nontrivial = true;
+                        } else {
+                            match guard(|| ECIESCiphertext::from_bytes(&wire, has_key).map_err(|e| e.to_string()).and_then(|ct| ECIESCiphertext::from_bytes(&ct.to_bytes(), has_key).map_err(|e| e.to_string()))) {
+                                Ok(Ok(c)) => fresh = Some(c),
+                                Ok(Err(e)) => early = Some(Err(e)),
+                                Err(pn) => {
+                                    if ctx.violate("panic", format!("panic@{}#from_bytes", site_file(&pn.site)), format!("{}: {}", pn.site, pn.msg)) {
+                                        return;
+                                    }
+                                    continue;
+                                }
                             }
-                        });
+                        }
+                        let r = match early {
+                            Some(e) => Ok(e),
+                            None => {
+                                let ct: &ECIESCiphertext = if use_held { &pk.held.as_ref().unwrap().1 } else { fresh.as_ref().unwrap() };
+                                guard(|| -> Result<Vec<u8>, String> {
+                                    let rk = PrivateKey::from_bytes(&rsecret).map_err(|e| e.to_string())?;
+                                    let sp = if keying == "known" { PublicKey::from_bytes(&sender_pub_known).map_err(|e| e.to_string())? } else { ct.extract_public_key().map_err(|e| e.to_string())? };
+                                    if via_dm {
+                                        rk.decrypt_message(ct, &sp).map_err(|e| e.to_string())
+                                    } else {
+                                        ECIES::decrypt(ct, &rk, &sp).map_err(|e| e.to_string())
+                                    }
+                                })
+                            }
+                        };
+                        if let Some(f) = fresh {
+                            pk.held = Some((wire.clone(), f));
+                        }
                         match r {
                             Ok(x) => x,
                             Err(pn) => {
